@@ -390,6 +390,7 @@ type lateJobResult struct {
 	Round     int    `json:"round"`
 	WaitOK    bool   `json:"wait_returned"`
 	LateExecs int64  `json:"execs_begun_after_wait"`
+	StopHung  bool   `json:"stop_hung"`
 	Execs     int64  `json:"execs"`
 }
 
@@ -439,7 +440,17 @@ func runLateJob(round int) lateJobResult {
 		stopAndWait(s, 3*time.Second)
 		return res
 	}
-	s.Stop()
+	stopped := make(chan struct{})
+	go func() { s.Stop(); close(stopped) }()
+	select {
+	case <-stopped:
+	case <-time.After(3 * time.Second):
+		res.StopHung = true // Stop waits for something that waits for Stop
+		close(tr.release)
+		<-stopped
+		stopAndWait(s, 3*time.Second)
+		return res
+	}
 	done := make(chan struct{})
 	go func() {
 		ctx, c := context.WithTimeout(context.Background(), 6*time.Second)
@@ -475,7 +486,11 @@ func cmdPoolStop() {
 			}
 		}()
 		for r := 0; r < 4*rounds; r++ {
-			emit(runLateJob(r))
+			lr := runLateJob(r)
+			emit(lr)
+			if lr.StopHung {
+				return
+			}
 		}
 	}()
 }
